@@ -114,7 +114,7 @@ CHECKS = {
        "for EVERY call of the API in every state — user sends, automatic responses, error DISCONNECTs, timer PINGREQ, CONNACK refusals, store "
        "retransmission, alias-rewritten publishes — every v5.0 packet requested for sending fits the limit in force when the call returns; "
        "lifted to all histories. The implementation is judged by the monitor mon_c14 (size <= limit for every ESend, release of dropped ids, "
-       "DISCONNECT 0x95) and tied to the model by the correspondence.",
+       "DISCONNECT 0x95) and tied to the model by the correspondence. THE PAIR (Conn/PairLimits.v): after the v5.0 handshake, for every negotiated value, the limit one side enforces on sending is the limit the other announced and checks on receipt, for Maximum Packet Size and Receive Maximum alike (C14_limits_agree_after_handshake).",
   ref="DESIGN.md §3 C14",
   note=CONN_NOTE,
   technique="Coq proof for every call of the model (all send paths, all states, all histories) + size monitor + differential correspondence"),
